@@ -15,5 +15,12 @@ for f in sorted(glob.glob(os.path.join(ROOT, 'seeded', '*', 'meta.json'))):
     summ = (m.get('summary') or '').replace('\n', ' ').replace('|', '/')
     need = (m.get('needs_to_manifest') or '').replace('\n', ' ').replace('|', '/')
     rows.append('| %s | %s | %s | %s (%s) |' % (sid, summ[:260], need[:200], how, concrete))
-print('| id | change | needs, to manifest | outcome |\n|---|---|---|---|')
-print('\n'.join(rows))
+table = '| id | change | needs, to manifest | outcome |\n|---|---|---|---|\n' + '\n'.join(rows)
+import sys
+if '--update-design' in sys.argv:
+    dp = os.path.join(ROOT, 'DESIGN.md')
+    s = open(dp).read()
+    a, b = s.index('<!-- seeded-table:begin -->') + len('<!-- seeded-table:begin -->'), s.index('<!-- seeded-table:end -->')
+    open(dp, 'w').write(s[:a] + '\n' + table + '\n' + s[b:])
+else:
+    print(table)
